@@ -920,6 +920,10 @@ class MatchStream(Stream):
         {"cfg": mk_cfg(), "rules": [mk_rule(toks_of("/<float:f>"), "f"), mk_rule(toks_of("/u/<uuid:u>"), "u"), mk_rule(toks_of("/a/<any(a,b):x>"), "a"), mk_rule(toks_of("/s/<string(length=2):s>"), "s"), mk_rule(toks_of("/h/<string:s>.html"), "h"), mk_rule(toks_of("/p/<path:p>"), "p")], "adapter": mk_adapter(), "probes": [["/1.5\n", "GET"], ["/u/" + UUIDS[0] + "\n", "GET"], ["/a/a\n", "GET"], ["/s/ab\n", "GET"], ["/s/a\n", "GET"], ["/h/x.html\n", "GET"], ["/h/x\n.html", "GET"], ["/p/a\n", "GET"], ["/p/a/b\n", "GET"]]},
         # F03d (known finding): literal text after a path converter outweighs a narrower converter
         {"cfg": mk_cfg(), "rules": [mk_rule(toks_of("/<path:p>/edit"), "p"), mk_rule(toks_of("/<string:s>/edit"), "s"), mk_rule(toks_of("/<int:i>/edit"), "i")], "adapter": mk_adapter(), "probes": [["/12/edit", "GET"], ["/ab/edit", "GET"], ["/a/b/edit", "GET"]]},
+        # priority below a shared VARIABLE segment (seeded change C03-2: states behind dynamic transitions not re-sorted)
+        {"cfg": mk_cfg(), "rules": [mk_rule(toks_of("/<string:a>/<string:s>"), "s"), mk_rule(toks_of("/<string:a>/<int:i>"), "i")], "adapter": mk_adapter(), "probes": [["/x/1", "GET"], ["/x/y", "GET"]]},
+        {"cfg": mk_cfg(), "rules": [mk_rule(toks_of("/<string:a>/<path:p>"), "p"), mk_rule(toks_of("/<string:a>/<string:s>"), "s"), mk_rule(toks_of("/<string:a>/<float:f>"), "f")], "adapter": mk_adapter(), "probes": [["/x/y", "GET"], ["/x/1.5", "GET"], ["/x/y/z", "GET"]]},
+        {"cfg": mk_cfg(), "rules": [mk_rule(toks_of("/<int:n>/v<string:s>/<path:p>"), "p"), mk_rule(toks_of("/<int:n>/v<string:s>/<int:i>"), "i")], "adapter": mk_adapter(), "probes": [["/1/vx/12", "GET"]]},
         # priority
         {"cfg": mk_cfg(), "rules": [mk_rule(toks_of("/<string:s>"), "s"), mk_rule(toks_of("/<path:p>"), "p"), mk_rule(toks_of("/<int:i>"), "i"), mk_rule(toks_of("/12"), "l")], "adapter": mk_adapter(), "probes": [["/12", "GET"], ["/13", "GET"], ["/ab", "GET"], ["/a/b", "GET"]]},
         {"cfg": mk_cfg(), "rules": [mk_rule(toks_of("/x<string:s>"), "s"), mk_rule(toks_of("/<int:i>"), "i"), mk_rule(toks_of("/<int:j>/"), "j"), mk_rule(toks_of("/<a>/<b>"), "ab"), mk_rule(toks_of("/<a>/x"), "ax")], "adapter": mk_adapter(), "probes": [["/x1", "GET"], ["/1", "GET"], ["/1/", "GET"], ["/1/x", "GET"], ["/1/y", "GET"]]},
@@ -971,7 +975,8 @@ class MatchStream(Stream):
         var_idx = [i for i, t in enumerate(toks) if t != "/" and t[0] == "V" and t[1][0] != "p"]
         lit_idx = [i for i, t in enumerate(toks) if t != "/" and t[0] == "L"]
         if choice < 0.35 and var_idx:
-            i = rng.choice(var_idx)
+            # (with several variables mostly the last one: the rules then share variable segments and diverge below them)
+            i = var_idx[-1] if len(var_idx) > 1 and rng.random() < 0.6 else rng.choice(var_idx)
             toks[i] = ["V", gen_conv(rng), toks[i][2]]
         elif choice < 0.55 and var_idx:
             i = rng.choice(var_idx)
